@@ -184,6 +184,17 @@ func sweep(fs afero.Fs, explicit map[string]bool) string {
 			}
 			sort.Strings(names)
 			out = append(out, fmt.Sprintf("%s|d|%s|%s|%s", p, perm, strings.Join(names, ","), errClass(err)))
+			// what a listing says about a file (its size) is what Stat says about it: nothing is printed
+			// on either side when they agree, a stale FileInfo in the listing prints the difference
+			for _, x := range l {
+				cp := p + "/" + x.Name()
+				if p == "/" {
+					cp = "/" + x.Name()
+				}
+				if st, e2 := fs.Stat(cp); e2 == nil && !x.IsDir() && !st.IsDir() && st.Size() != x.Size() {
+					out = append(out, fmt.Sprintf("%s|listed-size=%d|stat-size=%d", cp, x.Size(), st.Size()))
+				}
+			}
 			for _, n := range names {
 				if p == "/" {
 					rec("/" + n)
